@@ -1,6 +1,7 @@
 """C09 -- editTimestamps / appendTier / appendTextgrid move every entry by exactly the stated amount."""
 import itertools
-from .. import core, gen, tierops
+import sys
+from .. import core, gen, tierops, obshist
 
 ID = "C09"
 MODULE = "Check.C09Check"
@@ -230,3 +231,13 @@ def shrinks(case):
 
 def finding_match(case, r, kind, why, findings):
     return None
+
+
+def _obs_term(kind, state, st, res):
+    o = st["args"]["other"]
+    if kind == "I":
+        return "AppendI %s %s %s" % (core.citier(state), core.citier(o), obshist.res_tier(res, core.citier))
+    return "AppendP %s %s %s" % (core.cptier(state), core.cptier(o), obshist.res_tier(res, core.cptier))
+
+
+obshist.install(sys.modules[__name__], ["append"], ["append"], _obs_term)
